@@ -3,7 +3,1193 @@ import DswModel.Lemmas.Defs
 import DswModel.Lemmas.DeBruijn
 import DswModel.Lemmas.Vt
 import DswModel.Lemmas.Repair
+import DswModel.Lemmas.Trim
 /-! Helper lemmas for C08 (repair of interior edits on vertex-induced graphs). -/
-namespace Dsw
+namespace Dsw.RepairEdit
+open Dsw
 
-end Dsw
+/-! ## walks on any accessor -/
+
+theorem isWalk_append (a : Acc) : ∀ (X Y : List Char) (v : Int),
+    isWalk a v (X ++ Y) = (isWalk a v X && isWalk a (walkEnd a v X) Y)
+  | [], Y, v => by simp [isWalk, walkEnd]
+  | c :: X, Y, v => by
+    simp only [List.cons_append, isWalk, walkEnd]
+    cases h : a.next v c with
+    | none => simp
+    | some t =>
+      simp only
+      rw [isWalk_append a X Y t, (Acc.next_eq_some h).2.1]
+
+theorem walkEnd_append (a : Acc) : ∀ (X Y : List Char) (v : Int),
+    walkEnd a v (X ++ Y) = walkEnd a (walkEnd a v X) Y
+  | [], Y, v => by simp [walkEnd]
+  | c :: X, Y, v => by
+    simp only [List.cons_append, walkEnd]
+    exact walkEnd_append a X Y _
+
+/-- a strand that is not a walk has a first symbol that is not a live arc. -/
+theorem isWalk_false_split (a : Acc) : ∀ (T : List Char) (u : Int), isWalk a u T = false →
+    ∃ r, ∃ h : r < T.length, isWalk a u (T.take r) = true ∧
+      a.next (walkEnd a u (T.take r)) (T[r]) = none
+  | [], u, h => by simp [isWalk] at h
+  | c :: T, u, h => by
+    cases hn : a.next u c with
+    | none => exact ⟨0, by simp, by simp [isWalk], by simpa [walkEnd] using hn⟩
+    | some t =>
+      simp only [isWalk, hn] at h
+      obtain ⟨r, hr, h1, h2⟩ := isWalk_false_split a T t h
+      refine ⟨r + 1, by simpa using hr, ?_, ?_⟩
+      · simpa [isWalk, hn] using h1
+      · simpa [walkEnd, ← (Acc.next_eq_some hn).2.1] using h2
+
+/-! ## vertex arithmetic -/
+
+/-- the shift successor of vertex `u` along nucleotide `c`. -/
+def stepV (k u : Nat) (c : Char) : Nat := (u * 4 + (nucIdx c).getD 0) % 4 ^ k
+
+/-- the vertex reached from `u` after reading `X` (ignoring liveness). -/
+def vAfter (k u : Nat) (X : List Char) : Nat := (u * 4 ^ X.length + kmerIdx X) % 4 ^ k
+
+theorem vAfter_nil (k u : Nat) (hu : u < 4 ^ k) : vAfter k u [] = u := by
+  simp [vAfter, kmerIdx, Nat.mod_eq_of_lt hu]
+
+theorem vAfter_cons (k u : Nat) (c : Char) (X : List Char) :
+    vAfter k u (c :: X) = vAfter k (stepV k u c) X := by
+  unfold vAfter stepV
+  rw [kmerIdx_cons, List.length_cons, Nat.pow_succ]
+  have : u * (4 ^ X.length * 4) + ((nucIdx c).getD 0 * 4 ^ X.length + kmerIdx X) =
+      (u * 4 + (nucIdx c).getD 0) * 4 ^ X.length + kmerIdx X := by
+    rw [Nat.add_mul, Nat.mul_assoc, Nat.mul_comm 4]; omega
+  rw [this]
+  simp [Nat.add_mod, Nat.mul_mod]
+
+theorem vAfter_suffix (k u : Nat) (A B : List Char) (hB : B.length = k) :
+    vAfter k u (A ++ B) = kmerIdx B := by
+  unfold vAfter
+  rw [kmerIdx_append, List.length_append, hB, Nat.pow_add]
+  have h := kmerIdx_lt B
+  rw [hB] at h
+  have : u * (4 ^ A.length * 4 ^ k) + (kmerIdx A * 4 ^ k + kmerIdx B) =
+      (u * 4 ^ A.length + kmerIdx A) * 4 ^ k + kmerIdx B := by
+    rw [Nat.add_mul, Nat.mul_assoc]; omega
+  rw [this, Nat.mul_add_mod_self_right, Nat.mod_eq_of_lt h]
+
+theorem vAfter_snoc (k u : Nat) (X : List Char) (c : Char) :
+    vAfter k u (X ++ [c]) = stepV k (vAfter k u X) c := by
+  induction X generalizing u with
+  | nil =>
+    simp only [List.nil_append, vAfter_cons]
+    unfold vAfter stepV
+    simp [kmerIdx, Nat.add_mod, Nat.mul_mod]
+  | cons x X ih => simp only [List.cons_append, vAfter_cons, ih]
+
+theorem stepV_lt (k u : Nat) (c : Char) : stepV k u c < 4 ^ k := Nat.mod_lt _ (four_pow_pos k)
+
+/-! ## walks on a vertex-induced graph -/
+
+theorem retained_lt {k : Nat} {s : Mask} (hs : s.size = 4 ^ k) {u : Nat} (hu : s.getD u false = true) :
+    u < 4 ^ k := by
+  rw [← hs]; exact Trim.Mask.lt_size_of_getD hu
+
+/-- an arc of the induced graph: from a retained vertex, exactly the shift successors that are
+retained. -/
+theorem next_induced (k : Nat) (s : Mask) (hs : s.size = 4 ^ k) (u : Nat)
+    (hu : s.getD u false = true) (c : Char) :
+    (inducedAccessor k s).next (u : Int) c =
+      if (nucIdx c).isSome = true ∧ s.getD (stepV k u c) false = true then
+        some ((stepV k u c : Nat) : Int) else none := by
+  unfold Acc.next stepV
+  cases hj : nucIdx c with
+  | none => simp
+  | some j =>
+    have hj4 := nucIdx_lt hj
+    have e := Trim.inducedAccessor_ent_trim k s u j (retained_lt hs hu) hj4
+    simp only [Option.isSome_some, Option.getD_some, true_and]
+    by_cases h : s.getD ((u * 4 + j) % 4 ^ k) false = true
+    · rw [if_pos ⟨hu, h⟩] at e
+      rw [e, if_pos (Int.natCast_nonneg _), if_pos h]
+    · rw [if_neg (fun h' => h h'.2)] at e
+      rw [e, if_neg (by decide), if_neg h]
+
+theorem isWalk_induced_cons (k : Nat) (s : Mask) (hs : s.size = 4 ^ k) (u : Nat)
+    (hu : s.getD u false = true) (c : Char) (X : List Char) :
+    isWalk (inducedAccessor k s) (u : Int) (c :: X) = true ↔
+      (nucIdx c).isSome = true ∧ s.getD (stepV k u c) false = true ∧
+        isWalk (inducedAccessor k s) ((stepV k u c : Nat) : Int) X = true := by
+  simp only [isWalk, next_induced k s hs u hu c]
+  by_cases h : (nucIdx c).isSome = true ∧ s.getD (stepV k u c) false = true
+  · rw [if_pos h]; simp only [h.1, h.2, true_and]
+  · rw [if_neg h]
+    simp only [Bool.false_eq_true, false_iff]
+    intro h'; exact h ⟨h'.1, h'.2.1⟩
+
+theorem walkEnd_induced_cons (k : Nat) (s : Mask) (hs : s.size = 4 ^ k) (u : Nat)
+    (hu : s.getD u false = true) (c : Char) (X : List Char)
+    (hc : (nucIdx c).isSome = true) (hn : s.getD (stepV k u c) false = true) :
+    walkEnd (inducedAccessor k s) (u : Int) (c :: X) =
+      walkEnd (inducedAccessor k s) ((stepV k u c : Nat) : Int) X := by
+  simp only [walkEnd]
+  have := next_induced k s hs u hu c
+  rw [if_pos ⟨hc, hn⟩] at this
+  rw [← (Acc.next_eq_some this).2.1]
+
+/-- along a walk from a retained vertex the current vertex is given by the index arithmetic and
+is retained. -/
+theorem walk_induced (k : Nat) (s : Mask) (hs : s.size = 4 ^ k) : ∀ (X : List Char) (u : Nat),
+    s.getD u false = true → isWalk (inducedAccessor k s) (u : Int) X = true →
+    walkEnd (inducedAccessor k s) (u : Int) X = ((vAfter k u X : Nat) : Int) ∧
+      s.getD (vAfter k u X) false = true
+  | [], u, hu, _ => by
+    rw [vAfter_nil k u (retained_lt hs hu)]; exact ⟨rfl, hu⟩
+  | c :: X, u, hu, h => by
+    obtain ⟨h1, h2, h3⟩ := (isWalk_induced_cons k s hs u hu c X).mp h
+    rw [walkEnd_induced_cons k s hs u hu c X h1 h2, vAfter_cons]
+    exact walk_induced k s hs X _ h2 h3
+
+/-! ## windows -/
+
+/-- `S` is an ACGT string all of whose length-`k` windows are retained vertices. -/
+def Windowed (k : Nat) (s : Mask) (S : List Char) : Prop :=
+  IsAcgt S ∧ ∀ A B C, S = A ++ B ++ C → B.length = k → s.getD (kmerIdx B) false = true
+
+theorem Windowed.of_walk {k : Nat} {s : Mask} (hs : s.size = 4 ^ k) {u : Nat}
+    (hu : s.getD u false = true) {w : List Char}
+    (hw : isWalk (inducedAccessor k s) (u : Int) w = true) : Windowed k s w := by
+  refine ⟨isWalk_isAcgt _ w _ hw, ?_⟩
+  intro A B C e hB
+  subst e
+  rw [isWalk_append, Bool.and_eq_true] at hw
+  have := (walk_induced k s hs (A ++ B) u hu hw.1).2
+  rwa [vAfter_suffix k u A B hB] at this
+
+theorem Windowed.suffix {k : Nat} {s : Mask} {X S : List Char} (h : Windowed k s (X ++ S)) :
+    Windowed k s S := by
+  refine ⟨(IsAcgt.append.mp h.1).2, ?_⟩
+  intro A B C e hB
+  exact h.2 (X ++ A) B C (by rw [e]; simp) hB
+
+theorem Windowed.prefix {k : Nat} {s : Mask} {X S : List Char} (h : Windowed k s (X ++ S)) :
+    Windowed k s X := by
+  refine ⟨(IsAcgt.append.mp h.1).1, ?_⟩
+  intro A B C e hB
+  exact h.2 A B (C ++ S) (by rw [e]; simp) hB
+
+theorem stepV_kmerIdx (k : Nat) (b : Char) (B : List Char) (c : Char) (hB : (b :: B).length = k) :
+    stepV k (kmerIdx (b :: B)) c = kmerIdx (B ++ [c]) := by
+  have h1 := vAfter_suffix k 0 [] (b :: B) hB
+  rw [List.nil_append] at h1
+  rw [← h1, ← vAfter_snoc]
+  have : (b :: B) ++ [c] = [b] ++ (B ++ [c]) := by simp
+  rw [this]
+  exact vAfter_suffix k 0 [b] (B ++ [c]) (by simp at hB ⊢; omega)
+
+/-- what follows a window of a windowed string is a walk from that window's vertex. -/
+theorem Windowed.walk {k : Nat} {s : Mask} (hs : s.size = 4 ^ k) (hk : 1 ≤ k) :
+    ∀ (C A B S : List Char), Windowed k s S → S = A ++ B ++ C → B.length = k →
+      isWalk (inducedAccessor k s) ((kmerIdx B : Nat) : Int) C = true
+  | [], _, _, _, _, _, _ => rfl
+  | c :: C, A, B, S, h, e, hB => by
+    match B, hB with
+    | [], hB => simp at hB; omega
+    | b :: B', hB =>
+      have hret := h.2 A (b :: B') (c :: C) e hB
+      have e' : S = (A ++ [b]) ++ (B' ++ [c]) ++ C := by rw [e]; simp
+      have hB' : (B' ++ [c]).length = k := by simp at hB ⊢; omega
+      rw [isWalk_induced_cons k s hs _ hret, stepV_kmerIdx k b B' c hB]
+      refine ⟨h.1 c (by rw [e]; simp), h.2 _ _ _ e' hB', ?_⟩
+      exact Windowed.walk hs hk C (A ++ [b]) (B' ++ [c]) S h e' hB'
+
+/-- on a vertex-induced graph the scan cannot survive `k` symbols past the edited position and
+then fail: the first dead arc is met fewer than `k` symbols after the edit. -/
+theorem break_lt (k : Nat) (s : Mask) (hs : s.size = 4 ^ k) (hk : 1 ≤ k) (v : Nat)
+    (hv : s.getD v false = true) (P S : List Char) (y : Char) (hS : Windowed k s S)
+    (r : Nat) (hr : r < (y :: S).length)
+    (h1 : isWalk (inducedAccessor k s) (v : Int) (P ++ (y :: S).take r) = true)
+    (h2 : (inducedAccessor k s).next
+      (walkEnd (inducedAccessor k s) (v : Int) (P ++ (y :: S).take r)) ((y :: S)[r]) = none) :
+    r < k := by
+  apply Nat.lt_of_not_le
+  intro hkr
+  obtain ⟨e, hret⟩ := walk_induced k s hs _ v hv h1
+  rw [e, next_induced k s hs _ hret] at h2
+  have hr' : r ≤ S.length := by simp at hr; omega
+  have hacgt : (nucIdx ((y :: S)[r])).isSome = true := by
+    match r, hr, hkr with
+    | 0, _, hkr => omega
+    | r + 1, hr, _ => simp only [List.getElem_cons_succ]; exact hS.1 _ (List.getElem_mem _)
+  have hnext : s.getD (stepV k (vAfter k v (P ++ (y :: S).take r)) ((y :: S)[r])) false = true := by
+    rw [← vAfter_snoc, List.append_assoc, List.take_append_getElem]
+    have hB : ((S.take r).drop (r - k)).length = k := by simp; omega
+    have e1 : P ++ (y :: S).take (r + 1) = (P ++ y :: (S.take r).take (r - k)) ++ (S.take r).drop (r - k) := by
+      simp [List.take_succ_cons]
+    rw [e1, vAfter_suffix k v _ _ hB]
+    exact hS.2 ((S.take r).take (r - k)) _ (S.drop r) (by simp) hB
+  rw [if_pos ⟨hacgt, hnext⟩] at h2
+  cases h2
+
+/-! ## slices -/
+
+theorem pySlice_nat {α} (l : List α) (a b : Nat) :
+    pySlice l (a : Int) (b : Int) = (l.drop a).take (b - a) := by
+  unfold pySlice pyNorm
+  have h1 : ¬ ((a : Int) < 0) := by omega
+  have h2 : ¬ ((b : Int) < 0) := by omega
+  simp only [h1, h2, if_false, Int.toNat_natCast]
+  by_cases ha : a ≤ l.length
+  · rw [Nat.min_eq_left ha]
+    by_cases hb : b ≤ l.length
+    · rw [Nat.min_eq_left hb]
+    · rw [Nat.min_eq_right (by omega)]
+      rw [List.take_of_length_le (by simp), List.take_of_length_le (by simp; omega)]
+  · rw [Nat.min_eq_right (by omega : l.length ≤ a),
+      List.drop_of_length_le (by omega : l.length ≤ a), List.drop_of_length_le (Nat.le_refl _)]
+    simp
+
+theorem slice_chunk (P S : List Char) (y : Char) (k r : Nat) (hr : r < k) (hP : k ≤ P.length) :
+    ((P ++ y :: S).drop (P.length + r + 1 - k)).take (P.length + r + k - (P.length + r + 1 - k)) =
+      P.drop (P.length + r + 1 - k) ++ y :: S.take (r + k - 1) := by
+  rw [List.drop_append_of_le_length (by omega), List.take_append]
+  have e1 : (P.drop (P.length + r + 1 - k)).length = k - 1 - r := by simp; omega
+  rw [e1, List.take_of_length_le (by rw [e1]; omega)]
+  have e2 : P.length + r + k - (P.length + r + 1 - k) - (k - 1 - r) = (r + k - 1) + 1 := by omega
+  rw [e2, List.take_succ_cons]
+
+theorem slice_resume (P S : List Char) (y : Char) (k r : Nat) :
+    ((P ++ y :: S).drop (P.length + r + 1)).take (P.length + r + k + 1 - (P.length + r + 1)) =
+      (S.drop r).take k := by
+  have e : P.length + r + 1 = P.length + (r + 1) := by omega
+  have e' : P.length + (r + 1) - P.length = r + 1 := by omega
+  rw [e, List.drop_append, List.drop_of_length_le (by omega), List.nil_append, e',
+    List.drop_succ_cons]
+  congr 1; omega
+
+/-! ## the queue after a clean run -/
+
+theorem run_queue_lt (a : Acc) : ∀ (w : List Char) (st : Scan) (j : Nat), j < st.loc →
+    (st.run a w).queue[j]? = st.queue[j]?
+  | [], _, _, _ => rfl
+  | c :: w, st, j, hj => by
+    simp only [Scan.run]
+    rw [run_queue_lt a w _ j (by simp; omega)]
+    simp only [Scan.advance]
+    rw [List.getElem?_set_ne (by omega)]
+
+theorem run_queue (a : Acc) : ∀ (w : List Char) (st : Scan), st.loc + w.length ≤ st.queue.length →
+    ∀ i, i < w.length → (st.run a w).queue[st.loc + i]? = some (walkEnd a st.v (w.take (i + 1)))
+  | [], _, _, i, hi => by simp at hi
+  | c :: w, st, hl, i, hi => by
+    simp only [Scan.run]
+    simp only [List.length_cons] at hl hi
+    match i with
+    | 0 =>
+      rw [Nat.add_zero, run_queue_lt a w _ st.loc (by simp)]
+      simp only [Scan.advance]
+      rw [List.getElem?_set_self (by omega)]
+      simp [walkEnd]
+    | i + 1 =>
+      have := run_queue a w (st.advance c (a.ent st.v ((nucIdx c).getD 0)))
+        (by simp [Scan.advance]; omega) i (by omega)
+      simp only [Scan.advance_loc] at this
+      rw [show st.loc + (i + 1) = st.loc + 1 + i by omega, this]
+      simp [Scan.advance, walkEnd]
+
+/-! ## one detection -/
+
+theorem scan_detect (a : Acc) (k : Nat) (dna : List Char) (fuel : Nat) (X : List Char) (d : Char)
+    (rest : List Char) (st : Scan) (hX : isWalk a st.v X = true)
+    (hd : dna.drop st.loc = X ++ d :: rest) (hn : a.next (walkEnd a st.v X) d = none) :
+    scan a k dna (fuel + 1 + X.length) st = scan a k dna fuel ((st.run a X).detect k dna) := by
+  rw [scan_walk a k dna (fuel + 1) X st hX ⟨_, hd⟩]
+  obtain ⟨h1, h2, -⟩ := Scan.run_fields a X st
+  have hlen : st.loc + X.length < dna.length := by
+    have := congrArg List.length hd
+    simp at this; omega
+  have hget : dna.getD (st.loc + X.length) 'A' = d := by
+    have : (dna.drop st.loc)[X.length]? = some d := by rw [hd]; simp
+    rw [List.getElem?_drop] at this
+    simp [List.getD, this]
+  rw [scan_succ a k dna fuel _ (by rw [h1]; exact hlen)]
+  congr 1
+  simp only [scanStep, h1, h2, hget, hn]
+
+theorem detect_fields (a : Acc) (k : Nat) (dna X : List Char) (st : Scan) (cur0 : List Char)
+    (tl : List (List Char)) (hsp : st.splits = cur0 :: tl) (L : Nat) (hL : L = st.loc + X.length)
+    (hkL : k ≤ L) (hcur : k ≤ (cur0 ++ X).length + 1) :
+    ((st.run a X).detect k dna).detected = st.detected + 1 ∧
+    ((st.run a X).detect k dna).loc = L + k + 1 ∧
+    ((st.run a X).detect k dna).v = ((kmerIdx ((dna.drop (L + 1)).take k) : Nat) : Int) ∧
+    ((st.run a X).detect k dna).splits =
+      [nucChar (kmerIdx ((dna.drop (L + 1)).take k) % 4)] ::
+        (cur0 ++ X).take ((cur0 ++ X).length + 1 - k) :: tl ∧
+    ((st.run a X).detect k dna).chunks = (dna.drop (L + 1 - k)).take (L + k - (L + 1 - k)) :: st.chunks ∧
+    ((st.run a X).detect k dna).markers = ((st.run a X).queue.drop (L - k)).take k :: st.markers ∧
+    ((st.run a X).detect k dna).queue = (st.run a X).queue ∧
+    ((st.run a X).detect k dna).visited = st.visited + X.length := by
+  obtain ⟨h1, h2, h3, h4, h5, h6, h7⟩ := Scan.run_fields a X st
+  have h8 := Scan.run_splits a X st (by rw [hsp]; simp)
+  rw [hsp] at h8
+  simp only [List.headD_cons, List.tail_cons] at h8
+  have hloc : (st.run a X).loc = L := by rw [h1, hL]
+  have e1 : ((L : Int) + 1) = ((L + 1 : Nat) : Int) := by omega
+  have e2 : ((L : Int) + k + 1) = ((L + k + 1 : Nat) : Int) := by omega
+  have e3 : ((L : Int) - k + 1) = ((L + 1 - k : Nat) : Int) := by omega
+  have e4 : ((L : Int) + k) = ((L + k : Nat) : Int) := by omega
+  have e5 : ((L : Int) - k) = ((L - k : Nat) : Int) := by omega
+  have e6 : (((cur0 ++ X).length : Int) - k + 1) = (((cur0 ++ X).length + 1 - k : Nat) : Int) := by
+    omega
+  have e7 : L + k + 1 - (L + 1) = k := by omega
+  have e8 : L - (L - k) = k := by omega
+  have ev : (pySlice dna ((L : Int) + 1) ((L : Int) + k + 1)).foldl
+      (fun n c => n * 4 + (nucIdx c).getD 0) 0 = kmerIdx ((dna.drop (L + 1)).take k) := by
+    rw [e1, e2, pySlice_nat, e7]; rfl
+  unfold Scan.detect
+  simp only [hloc, h8, List.headD_cons, List.tail_cons, ev, h3, h4, h5, h6]
+  refine ⟨trivial, trivial, trivial, ?_, ?_, ?_, trivial, trivial⟩
+  · rw [e6, show (0 : Int) = ((0 : Nat) : Int) from rfl, pySlice_nat]; simp
+  · rw [e3, e4, pySlice_nat]
+  · rw [e5, pySlice_nat, e8]
+
+/-- the last symbol of a non-empty ACGT k-mer is the residue of its index. -/
+theorem nucChar_kmerIdx_snoc (B : List Char) (c : Char) (hc : (nucIdx c).isSome = true) :
+    nucChar (kmerIdx (B ++ [c]) % 4) = c := by
+  rw [kmerIdx_snoc, Nat.mul_add_mod_self_right, Nat.mod_eq_of_lt (nucIdx_getD_lt c)]
+  exact nucChar_nucIdx_getD hc
+
+theorem window_last (S : List Char) (r k : Nat) (hk : 1 ≤ k) (hS : r + k ≤ S.length) :
+    (S.drop r).take k = (S.drop r).take (k - 1) ++ [S[r + k - 1]] := by
+  have h : k - 1 < (S.drop r).length := by simp; omega
+  have := List.take_append_getElem h
+  rw [show k - 1 + 1 = k by omega] at this
+  rw [← this, List.getElem_drop]
+  congr 3; omega
+
+/-- the scan of a strand `P ++ y :: S` that follows `P` and `r` further symbols, meets a dead arc
+and resumes on a walk: one detection, two splits, the chunk and the look-back window. -/
+theorem scan_single (a : Acc) (k : Nat) (v : Int) (P S : List Char) (y : Char) (r : Nat)
+    (hk : 1 ≤ k) (hr : r < k) (hP : k ≤ P.length) (hS : r + k ≤ S.length) (hacgt : IsAcgt S)
+    (h1 : isWalk a v (P ++ (y :: S).take r) = true)
+    (h2 : a.next (walkEnd a v (P ++ (y :: S).take r)) ((y :: S)[r]'(by simp; omega)) = none)
+    (h3 : isWalk a ((kmerIdx ((S.drop r).take k) : Nat) : Int) (S.drop (r + k)) = true) :
+    ∃ st marker, scan a k (P ++ y :: S) ((P ++ y :: S).length + 1) (Scan.init (P ++ y :: S) v) = some st ∧
+      st.detected = 1 ∧
+      st.splits = [S.drop (r + k - 1), P.take (P.length + r + 1 - k)] ∧
+      st.chunks = [P.drop (P.length + r + 1 - k) ++ y :: S.take (r + k - 1)] ∧
+      st.markers = [marker] ∧ marker.length = k ∧ marker.reverse[r]? = some (walkEnd a v P) := by
+  have hrT : r < (y :: S).length := by simp; omega
+  let dna := P ++ y :: S
+  let X := P ++ (y :: S).take r
+  let st0 := Scan.init dna v
+  have hXlen : X.length = P.length + r := by simp [X]; omega
+  have hdna : dna.length = P.length + 1 + S.length := by simp [dna]; omega
+  have hd : dna.drop st0.loc = X ++ (y :: S)[r] :: (y :: S).drop (r + 1) := by
+    show dna.drop 0 = _
+    rw [List.getElem_cons_drop hrT, List.drop_zero]
+    simp only [X, dna, List.append_assoc, List.take_append_drop]
+  have hstep := scan_detect a k dna (1 + k + (S.drop (r + k)).length) X _ _ st0 h1 hd h2
+  obtain ⟨f1, f2, f3, f4, f5, f6, f7, f8⟩ := detect_fields a k dna X st0 [] [] rfl (P.length + r)
+    (by rw [hXlen]; simp [st0, Scan.init]) (by omega) (by rw [List.nil_append, hXlen]; omega)
+  have hres : (dna.drop (P.length + r + 1)).take k = (S.drop r).take k := by
+    have := slice_resume P S y k r
+    rwa [show P.length + r + k + 1 - (P.length + r + 1) = k by omega] at this
+  rw [hres] at f3 f4
+  have hrest : dna.drop ((st0.run a X).detect k dna).loc = S.drop (r + k) ++ [] := by
+    rw [f2, List.append_nil]
+    show (P ++ y :: S).drop _ = _
+    rw [show P.length + r + k + 1 = P.length + (r + k + 1) by omega, List.drop_append,
+      List.drop_of_length_le (by omega), List.nil_append,
+      show P.length + (r + k + 1) - P.length = r + k + 1 by omega, List.drop_succ_cons]
+  have hw2 : isWalk a ((st0.run a X).detect k dna).v (S.drop (r + k)) = true := by rw [f3]; exact h3
+  have hwalk := scan_walk a k dna (1 + k) (S.drop (r + k)) _ hw2 ⟨[], hrest⟩
+  obtain ⟨g1, g2, g3, g4, g5, g6, g7⟩ := Scan.run_fields a (S.drop (r + k)) ((st0.run a X).detect k dna)
+  have g8 := Scan.run_splits a (S.drop (r + k)) ((st0.run a X).detect k dna) (by rw [f4]; simp)
+  refine ⟨((st0.run a X).detect k dna).run a (S.drop (r + k)),
+    ((st0.run a X).queue.drop (P.length + r - k)).take k, ?_, ?_, ?_, ?_, ?_, ?_, ?_⟩
+  · have e : dna.length + 1 = 1 + k + (S.drop (r + k)).length + 1 + X.length := by
+      rw [hdna, hXlen]; simp; omega
+    show scan a k dna (dna.length + 1) st0 = _
+    rw [e, hstep, hwalk]
+    exact scan_done a k dna _ _ (by rw [g1, f2, hdna]; simp; omega)
+  · rw [g3, f1]; rfl
+  · rw [g8, f4]
+    simp only [List.headD_cons, List.tail_cons, List.nil_append]
+    rw [window_last S r k hk hS, nucChar_kmerIdx_snoc _ _ (hacgt _ (List.getElem_mem _))]
+    congr 1
+    · rw [List.singleton_append, List.drop_eq_getElem_cons (l := S) (i := r + k - 1) (by omega),
+        show r + k - 1 + 1 = r + k by omega]
+    · congr 1
+      rw [hXlen]
+      show (P ++ (y :: S).take r).take _ = _
+      rw [List.take_append_of_le_length (by omega)]
+  · rw [g4, f5]
+    congr 1
+    exact slice_chunk P S y k r hr hP
+  · rw [g5, f6]; rfl
+  · have : (st0.run a X).queue.length = dna.length := by
+      rw [(Scan.run_fields a X st0).2.2.2.2.2.2]; simp [st0, Scan.init]
+    simp [this, hdna]; omega
+  · have hq := run_queue a X st0 (by simp [st0, Scan.init, hXlen, dna]; omega) (P.length - 1)
+      (by rw [hXlen]; omega)
+    have hl : (((st0.run a X).queue.drop (P.length + r - k)).take k).length = k := by
+      have : (st0.run a X).queue.length = dna.length := by
+        rw [(Scan.run_fields a X st0).2.2.2.2.2.2]; simp [st0, Scan.init]
+      simp [this, hdna]; omega
+    rw [List.getElem?_reverse (by rw [hl]; exact hr), hl, List.getElem?_take,
+      if_pos (by omega), List.getElem?_drop]
+    have e0 : st0.loc = 0 := rfl
+    rw [e0, Nat.zero_add] at hq
+    rw [show P.length + r - k + (k - 1 - r) = P.length - 1 by omega, hq,
+      show P.length - 1 + 1 = P.length by omega]
+    simp [X, st0, Scan.init]
+
+/-! ## the restoring record of `pathMatching` -/
+
+theorem isWalk_prefix (a : Acc) (X Y : List Char) (v : Int) (h : isWalk a v (X ++ Y) = true) :
+    isWalk a v X = true := by
+  rw [isWalk_append, Bool.and_eq_true] at h; exact h.1
+
+theorem isWalk_cons_inv {a : Acc} {v : Int} {x : Char} {R : List Char}
+    (h : isWalk a v (x :: R) = true) :
+    x ∈ (a.live v).map nucChar ∧ isWalk a (a.ent v ((nucIdx x).getD 0)) R = true := by
+  simp only [isWalk] at h
+  split at h
+  · rename_i t ht
+    obtain ⟨h1, h2, h3⟩ := Acc.next_eq_some ht
+    refine ⟨?_, by rw [← h2]; exact h⟩
+    obtain ⟨j, hj⟩ := Option.isSome_iff_exists.mp h1
+    have hj4 := nucIdx_lt hj
+    refine List.mem_map.mpr ⟨j, ?_, nucChar_nucIdx hj⟩
+    simp only [Acc.live, List.mem_filter, List.mem_range, decide_eq_true_eq]
+    refine ⟨hj4, ?_⟩
+    rw [hj] at h2
+    simp only [Option.getD_some] at h2
+    rw [← h2]; exact h3
+  · cases h
+
+/-- how the corrupted strand differs from the original around the edited position: the original
+has `mid` where the corrupted strand has the single symbol `y`. -/
+def MidKind (indel : Bool) (y : Char) (mid : List Char) : Prop :=
+  (∃ x, mid = [x] ∧ x ≠ y) ∨ (indel = true ∧ mid = []) ∨ (indel = true ∧ ∃ x, mid = [x, y])
+
+theorem restore_record (a : Acc) (indel : Bool) (vp : Int) (Pd S' : List Char) (y : Char)
+    (mid : List Char) (hkind : MidKind indel y mid) (hw : isWalk a vp (mid ++ S') = true) :
+    ∃ pm info, pathMatching a (Pd ++ y :: S') vp Pd.length indel = .ok pm ∧ info ∈ pm.1 ∧
+      info.fragment = Pd ++ mid ++ S' := by
+  have hocc : (Pd ++ y :: S')[Pd.length]? = some y := by simp
+  have hd1 : (Pd ++ y :: S').drop (Pd.length + 1) = S' := by simp
+  have hd0 : (Pd ++ y :: S').drop Pd.length = y :: S' := by simp
+  have ht : (Pd ++ y :: S').take Pd.length = Pd := by simp
+  have hpm := pathMatching_eq a _ vp _ indel y hocc
+  rcases hkind with ⟨x, rfl, hxy⟩ | ⟨hi, rfl⟩ | ⟨hi, x, rfl⟩
+  · obtain ⟨h1, h2⟩ := isWalk_cons_inv hw
+    refine ⟨_, (⟨.S, Pd.length, x, (Pd ++ y :: S').set Pd.length x⟩ : RepairInfo), hpm, ?_, by simp⟩
+    apply List.mem_append_left
+    refine List.mem_map.mpr ⟨x, ?_, rfl⟩
+    simp only [pmSubs, List.mem_filter, hd1]
+    exact ⟨⟨h1, by simpa using hxy⟩, h2⟩
+  · refine ⟨_, (⟨.D, Pd.length, y, Pd ++ S'⟩ : RepairInfo), hpm, ?_, by simp⟩
+    apply List.mem_append_right
+    rw [if_pos hi, hd1, ht]
+    apply List.mem_append_right
+    rw [List.nil_append] at hw
+    rw [if_pos hw]; simp
+  · obtain ⟨h1, h2⟩ := isWalk_cons_inv hw
+    refine ⟨_, (⟨.I, Pd.length, x, Pd ++ [x] ++ y :: S'⟩ : RepairInfo), hpm, ?_, by simp⟩
+    apply List.mem_append_right
+    rw [if_pos hi]
+    apply List.mem_append_left
+    refine List.mem_map.mpr ⟨x, ?_, by rw [ht, hd0]⟩
+    simp only [pmIns, List.mem_filter, hd0]
+    exact ⟨h1, h2⟩
+
+/-- `pathMatching` proposes at most nine records, each at most one symbol longer than the chunk. -/
+theorem pathMatching_records {a : Acc} {chunk : List Char} {prev : Int} {occ : Nat} {hasIndel : Bool}
+    {r : List RepairInfo × Nat} (h : pathMatching a chunk prev occ hasIndel = .ok r) :
+    r.1.length ≤ 9 ∧ ∀ info ∈ r.1, info.fragment.length ≤ chunk.length + 1 := by
+  have hlt := pathMatching_ok_lt h
+  rw [pathMatching_eq a chunk prev occ hasIndel chunk[occ] (List.getElem?_eq_getElem hlt)] at h
+  cases h
+  have hu : ((a.live prev).map nucChar).length ≤ 4 := by simpa using live_length_le a prev
+  have hs : (pmSubs a chunk prev occ chunk[occ]).length ≤ 4 :=
+    Nat.le_trans (List.length_filter_le _ _) (Nat.le_trans (List.length_filter_le _ _) hu)
+  have hi : (pmIns a chunk prev occ).length ≤ 4 := Nat.le_trans (List.length_filter_le _ _) hu
+  constructor
+  · simp only [List.length_append, List.length_map]
+    split
+    · simp only [List.length_append, List.length_map]
+      split <;> simp <;> omega
+    · simp; omega
+  · intro info hinfo
+    simp only [List.mem_append, List.mem_map] at hinfo
+    rcases hinfo with ⟨x, -, rfl⟩ | hinfo
+    · simp
+    · split at hinfo
+      · simp only [List.mem_append, List.mem_map] at hinfo
+        rcases hinfo with ⟨x, -, rfl⟩ | hinfo
+        · simp; omega
+        · split at hinfo
+          · simp at hinfo; subst hinfo; simp; omega
+          · simp at hinfo
+      · simp at hinfo
+
+/-! ## the fragment set -/
+
+theorem subset_addFragments (dna : List Char) : ∀ (infos : List RepairInfo) (set : List (List Char))
+    (f : List Char), f ∈ set → f ∈ addFragments dna set infos
+  | [], _, _, h => h
+  | info :: infos, set, f, h => by
+    simp only [addFragments, List.foldl_cons]
+    apply subset_addFragments dna infos
+    split
+    · exact h
+    · split
+      · exact h
+      · exact List.mem_append_left _ h
+
+theorem addFragments_length_le (dna : List Char) : ∀ (infos : List RepairInfo)
+    (set : List (List Char)), (addFragments dna set infos).length ≤ set.length + infos.length
+  | [], _ => by simp [addFragments]
+  | info :: infos, set => by
+    simp only [addFragments, List.foldl_cons]
+    have := addFragments_length_le dna infos
+      (if set.contains dna then set else if set.contains info.fragment then set
+        else set ++ [info.fragment])
+    simp only [addFragments] at this
+    refine Nat.le_trans this ?_
+    split
+    · simp <;> omega
+    · split <;> simp <;> omega
+
+/-- a record whose fragment is not the whole strand is added to a set that does not contain the
+whole strand (the `if dna in set` quirk never fires). -/
+theorem mem_addFragments_new (dna : List Char) : ∀ (infos : List RepairInfo)
+    (set : List (List Char)) (info : RepairInfo), dna ∉ set →
+    (∀ i ∈ infos, i.fragment ≠ dna) → info ∈ infos → info.fragment ∈ addFragments dna set infos
+  | [], _, _, _, _, h => by cases h
+  | i0 :: infos, set, info, hset, hne, hmem => by
+    simp only [addFragments, List.foldl_cons]
+    have hc : set.contains dna = false := by simpa using hset
+    simp only [hc, Bool.false_eq_true, if_false]
+    rcases List.mem_cons.mp hmem with rfl | hmem
+    · apply subset_addFragments
+      split
+      · rename_i h; simpa using h
+      · simp
+    · apply mem_addFragments_new dna infos _ info ?_ (fun i hi => hne i (List.mem_cons_of_mem _ hi)) hmem
+      split
+      · exact hset
+      · intro h
+        rcases List.mem_append.mp h with h | h
+        · exact hset h
+        · simp at h; exact hne i0 List.mem_cons_self h.symm
+
+/-- a property established by the step at one list element and preserved by all steps holds of
+the result of a successful `foldlM`. -/
+theorem foldlM_mem_inv {α β} (f : β → α → R β) (I Q : β → Prop) :
+    ∀ (l : List α) (x : α) (b r : β), x ∈ l →
+      (∀ acc y r, y ∈ l → I acc → f acc y = .ok r → I r) →
+      (∀ acc y r, y ∈ l → I acc → Q acc → f acc y = .ok r → Q r) →
+      (∀ acc r, I acc → f acc x = .ok r → Q r) →
+      I b → l.foldlM f b = .ok r → Q r := by
+  intro l
+  induction l with
+  | nil => intro x b r hx; cases hx
+  | cons y ys ih =>
+    intro x b r hx hI hQ hxQ hb h
+    rw [List.foldlM_cons] at h
+    obtain ⟨b', hb', h'⟩ := R.bind_eq_ok _ _ _ h
+    have hIb' := hI b y b' List.mem_cons_self hb hb'
+    rcases List.mem_cons.mp hx with rfl | hx
+    · have hQb' := hxQ b b' hb hb'
+      have := foldlM_ok_inv f (fun acc => I acc ∧ Q acc) ys b' r
+        (fun acc z r' hz hacc hr' =>
+          ⟨hI acc z r' (List.mem_cons_of_mem _ hz) hacc.1 hr',
+           hQ acc z r' (List.mem_cons_of_mem _ hz) hacc.1 hacc.2 hr'⟩) ⟨hIb', hQb'⟩ h'
+      exact this.2
+    · exact ih x b' r hx (fun acc z r' hz => hI acc z r' (List.mem_cons_of_mem _ hz))
+        (fun acc z r' hz => hQ acc z r' (List.mem_cons_of_mem _ hz)) hxQ hIb' h'
+
+/-- the fragment set of one detection: it exists, holds the fragment of any record found at any
+look-back position, has at most nine entries per look-back position, all of them ACGT. -/
+theorem collectFragments_mem (a : Acc) (k : Nat) (dna chunk : List Char) (marker : List Int)
+    (hasIndel : Bool) (hk : 1 ≤ k) (hc : IsAcgt chunk) (hlen : k ≤ chunk.length)
+    (hdna : chunk.length + 1 < dna.length) (prev : Int) (idx : Nat)
+    (hmem : marker.reverse[idx]? = some prev) (pm : List RepairInfo × Nat) (info : RepairInfo)
+    (hpm : pathMatching a chunk prev (k - idx - 1) hasIndel = .ok pm) (hinfo : info ∈ pm.1) :
+    ∃ r, collectFragments a k dna chunk marker hasIndel = .ok r ∧ info.fragment ∈ r.1 ∧
+      r.1.length ≤ marker.length * 9 ∧ ∀ f ∈ r.1, IsAcgt f := by
+  obtain ⟨r, hr, hacgt⟩ := collectFragments_total a k dna chunk marker hasIndel hk hc (Or.inr hlen)
+  refine ⟨r, hr, ?_, ?_, hacgt⟩
+  · rw [collectFragments_eq] at hr
+    refine foldlM_mem_inv (collectStep a k dna chunk hasIndel)
+      (fun acc => ∀ f ∈ acc.1, f.length ≤ chunk.length + 1) (fun acc => info.fragment ∈ acc.1)
+      _ (prev, idx) _ r (List.mem_zipIdx_iff_getElem?.mpr hmem) ?_ ?_ ?_ (by simp) hr
+    · intro acc p r' _ hacc hr' f hf
+      obtain ⟨pm', hpm', e⟩ := R.bind_ok _ _ _ hr'
+      cases e
+      rcases mem_addFragments dna _ _ f hf with hf | ⟨i, hi, rfl⟩
+      · exact hacc f hf
+      · exact (pathMatching_records hpm').2 i hi
+    · intro acc p r' _ _ hq hr'
+      obtain ⟨pm', hpm', e⟩ := R.bind_ok _ _ _ hr'
+      cases e
+      exact subset_addFragments dna _ _ _ hq
+    · intro acc r' hacc hr'
+      obtain ⟨pm', hpm', e⟩ := R.bind_ok _ _ _ hr'
+      cases e
+      simp only at hpm'
+      rw [hpm] at hpm'
+      cases hpm'
+      refine mem_addFragments_new dna _ _ info ?_ ?_ hinfo
+      · intro h; have := hacc dna h; omega
+      · intro i hi e
+        have := (pathMatching_records hpm).2 i hi
+        rw [e] at this; omega
+  · rw [collectFragments_eq] at hr
+    have := foldlM_count_le (collectStep a k dna chunk hasIndel) (·.1.length) 9 _ _ _
+      (fun acc x r' _ hr' => by
+        obtain ⟨pm', hpm', e⟩ := R.bind_ok _ _ _ hr'
+        cases e
+        have h1 := (pathMatching_records hpm').1
+        have h2 := addFragments_length_le dna pm'.1 acc.1
+        simp only; omega) hr
+    simpa using this
+
+/-! ## the output stage -/
+
+theorem mapM_mem {α β} (f : α → R β) : ∀ (l : List α) (r : List β), l.mapM f = .ok r →
+    ∀ x ∈ l, ∃ y ∈ r, f x = .ok y := by
+  intro l
+  induction l with
+  | nil => intro r _ x hx; cases hx
+  | cons z zs ih =>
+    intro r h x hx
+    rw [List.mapM_cons] at h
+    obtain ⟨y, hy, h⟩ := R.bind_eq_ok _ _ _ h
+    obtain ⟨ys, hys, h⟩ := R.bind_eq_ok _ _ _ h
+    simp [pure, Except.pure] at h
+    subst h
+    rcases List.mem_cons.mp hx with rfl | hx
+    · exact ⟨y, List.mem_cons_self, hy⟩
+    · obtain ⟨y', hy', e⟩ := ih ys hys x hx
+      exact ⟨y', List.mem_cons_of_mem _ hy', e⟩
+
+/-- the check of the original strand accepts the original strand. -/
+theorem vtMatches_of_check (w : List Char) (chk : Option (List Char))
+    (hc : chk = none ∨ ∃ m c, 1 ≤ m ∧ setVt w m = .ok c ∧ chk = some c) :
+    vtMatches w chk = .ok true := by
+  rcases hc with rfl | ⟨m, c, hm, hset, rfl⟩
+  · rfl
+  · have hl := setVt_length hm hset
+    simp only [vtMatches, hl, hset, Except.map]
+    simp
+
+/-- the product path of `repairTail`: a candidate that passes the check is returned. -/
+theorem repairTail_mem (dna : List Char) (chk : Option (List Char)) (heap : Nat) (st : Scan)
+    (fv : List (List (List Char)) × Nat) (res : List (List Char) × RepairStats)
+    (h : repairTail dna chk heap st fv = .ok res) (h1 : 1 ≤ fragCount fv.1)
+    (h2 : fragCount fv.1 ≤ heap) (frs : List (List Char)) (hfrs : frs ∈ product fv.1)
+    (hv : vtMatches (candOf st.splits.reverse frs) chk = .ok true) :
+    res.2.detected = st.detected ∧ candOf st.splits.reverse frs ∈ res.1 := by
+  unfold repairTail at h
+  rw [if_neg (by omega)] at h
+  obtain ⟨checked, hc, h⟩ := R.bind_ok _ _ _ h
+  simp only [pure, Except.pure, Except.ok.injEq] at h
+  subst h
+  refine ⟨rfl, ?_⟩
+  obtain ⟨y, hy, e⟩ := mapM_mem _ _ _ hc (candOf st.splits.reverse frs)
+    (List.mem_map.mpr ⟨frs, hfrs, rfl⟩)
+  rw [hv] at e
+  simp only [Except.map, Except.ok.injEq] at e
+  subst e
+  simp only
+  rw [mem_isort, List.mem_eraseDups]
+  exact List.mem_map.mpr ⟨_, List.mem_filter.mpr ⟨hy, rfl⟩, rfl⟩
+
+theorem fragFold_single (a : Acc) (k : Nat) (dna : List Char) (hasIndel : Bool) (st : Scan)
+    (chunk : List Char) (marker : List Int) (hc : st.chunks = [chunk]) (hm : st.markers = [marker])
+    (r : List (List Char) × Nat) (hr : collectFragments a k dna chunk marker hasIndel = .ok r) :
+    fragFold a k dna hasIndel st = .ok ([r.1], st.visited + r.2) := by
+  rw [fragFold_eq, hc, hm]
+  simp [fragStep, hr, Except.bind, pure, Except.pure, bind]
+
+/-- the single-edit theorem in decomposition form: the original strand is `P ++ mid ++ S`, the
+corrupted one `P ++ y :: S`. -/
+theorem single_core (k : Nat) (s : Mask) (v : Nat) (P mid S : List Char) (y : Char)
+    (chk : Option (List Char)) (heap : Nat) (indel : Bool) (hk : 1 ≤ k) (hs : s.size = 4 ^ k)
+    (hv : s.getD v false = true)
+    (hw : isWalk (inducedAccessor k s) (v : Int) (P ++ mid ++ S) = true)
+    (hkind : MidKind indel y mid) (hy : (nucIdx y).isSome = true) (hP : k ≤ P.length)
+    (hS : 2 * k - 1 ≤ S.length) (hchk : vtMatches (P ++ mid ++ S) chk = .ok true)
+    (hheap : 9 * k ≤ heap)
+    (hbad : isWalk (inducedAccessor k s) (v : Int) (P ++ y :: S) = false) :
+    ∃ cands st, repairDna (inducedAccessor k s) (P ++ y :: S) v k chk indel heap = .ok (cands, st) ∧
+      st.detected = 1 ∧ (P ++ mid ++ S) ∈ cands := by
+  -- the walk and its pieces
+  have hwin : Windowed k s (P ++ mid ++ S) := Windowed.of_walk hs hv hw
+  have hwinS : Windowed k s S := hwin.suffix
+  have hacgtP : IsAcgt P := by
+    have := hwin.prefix; rw [List.append_assoc] at hwin; exact hwin.prefix.1
+  rw [List.append_assoc, isWalk_append, Bool.and_eq_true] at hw
+  obtain ⟨hwP, hwmid⟩ := hw
+  -- where the scan of the corrupted strand breaks
+  rw [isWalk_append, hwP, Bool.true_and] at hbad
+  obtain ⟨r, hrT, hb1, hb2⟩ := isWalk_false_split _ _ _ hbad
+  have hX : isWalk (inducedAccessor k s) (v : Int) (P ++ (y :: S).take r) = true := by
+    rw [isWalk_append, hwP, hb1]; rfl
+  rw [← walkEnd_append] at hb2
+  have hr : r < k := break_lt k s hs hk v hv P S y hwinS r hrT hX hb2
+  have hSk : r + k ≤ S.length := by omega
+  have hsplitS : S = S.take r ++ (S.drop r).take k ++ S.drop (r + k) := by
+    rw [List.append_assoc, ← List.drop_drop, List.take_append_drop, List.take_append_drop]
+  have h3 := Windowed.walk hs hk (S.drop (r + k)) (S.take r) ((S.drop r).take k) S hwinS hsplitS
+    (by simp; omega)
+  -- the scan
+  obtain ⟨st, marker, hscan, hdet, hsplits, hchunks, hmarkers, hmlen, hmr⟩ :=
+    scan_single (inducedAccessor k s) k v P S y r hk hr hP hSk hwinS.1 hX hb2 h3
+  -- the restoring record
+  have hmidS' : isWalk (inducedAccessor k s) (walkEnd (inducedAccessor k s) (v : Int) P)
+      (mid ++ S.take (r + k - 1)) = true := by
+    apply isWalk_prefix _ _ (S.drop (r + k - 1))
+    rw [List.append_assoc, List.take_append_drop]; exact hwmid
+  obtain ⟨pm, info, hpm, hinfo, hfrag⟩ := restore_record (inducedAccessor k s) indel
+    (walkEnd (inducedAccessor k s) (v : Int) P) (P.drop (P.length + r + 1 - k)) (S.take (r + k - 1)) y
+    mid hkind hmidS'
+  have hPd : (P.drop (P.length + r + 1 - k)).length = k - r - 1 := by simp; omega
+  rw [hPd] at hpm
+  have hchunkA : IsAcgt (P.drop (P.length + r + 1 - k) ++ y :: S.take (r + k - 1)) :=
+    IsAcgt.append.mpr ⟨hacgtP.drop _, IsAcgt.cons.mpr ⟨hy, hwinS.1.take _⟩⟩
+  have hclen : (P.drop (P.length + r + 1 - k) ++ y :: S.take (r + k - 1)).length = 2 * k - 1 := by
+    simp; omega
+  obtain ⟨fr, hfr, hfmem, hflen, hfacgt⟩ := collectFragments_mem (inducedAccessor k s) k (P ++ y :: S)
+    _ marker indel hk hchunkA (by rw [hclen]; omega) (by rw [hclen]; simp; omega) _ r hmr pm info hpm
+    hinfo
+  have hfold := fragFold_single (inducedAccessor k s) k (P ++ y :: S) indel st _ marker hchunks
+    hmarkers fr hfr
+  have hrep := repairDna_of_scan (chk := chk) (heap := heap) hscan hfold
+  -- the output stage
+  have hdnaA : IsAcgt (P ++ y :: S) := IsAcgt.append.mpr ⟨hacgtP, IsAcgt.cons.mpr ⟨hy, hwinS.1⟩⟩
+  obtain ⟨res, hres⟩ := repairTail_total (P ++ y :: S) chk heap st ([fr.1], st.visited + fr.2) hdnaA
+    (by
+      intro sp hsp
+      rw [hsplits] at hsp
+      simp only [List.mem_cons, List.not_mem_nil, or_false] at hsp
+      rcases hsp with rfl | rfl
+      · exact hwinS.1.drop _
+      · exact hacgtP.take _)
+    (by
+      intro fs hfs f hf
+      simp only [List.mem_cons, List.not_mem_nil, or_false] at hfs
+      subst hfs; exact hfacgt f hf)
+  have hcount : fragCount [fr.1] = fr.1.length := by simp [fragCount]
+  have hcand : candOf st.splits.reverse [info.fragment] = P ++ mid ++ S := by
+    rw [hsplits, hfrag]
+    simp [candOf]
+    rw [← List.append_assoc, List.take_append_drop]
+  have hm := repairTail_mem (P ++ y :: S) chk heap st _ res hres
+    (by rw [hcount]; exact List.length_pos_of_mem hfmem)
+    (by rw [hcount, hmlen] at *; omega) [info.fragment]
+    (by simp [product]; exact hfmem) (by rw [hcand]; exact hchk)
+  refine ⟨res.1, res.2, by rw [hrep, hres], ?_, ?_⟩
+  · rw [hm.1, hdet]
+  · rw [← hcand]; exact hm.2
+
+/-! ## several edits: scan steps from an arbitrary state -/
+
+/-- more fuel does not change a finished scan. -/
+theorem scan_mono (a : Acc) (k : Nat) (dna : List Char) : ∀ (f : Nat) (st st' : Scan),
+    scan a k dna f st = some st' → ∀ g, scan a k dna (f + g) st = some st'
+  | 0, st, st', h, g => by
+    simp only [scan] at h
+    split at h
+    · cases h
+    · cases h; exact scan_done a k dna _ st (by omega)
+  | f + 1, st, st', h, g => by
+    by_cases hlt : st.loc < dna.length
+    · rw [scan_succ a k dna f st hlt] at h
+      rw [show f + 1 + g = (f + g) + 1 by omega, scan_succ a k dna _ st hlt]
+      exact scan_mono a k dna f _ st' h g
+    · rw [scan_done a k dna _ st (by omega)] at h
+      cases h; exact scan_done a k dna _ st (by omega)
+
+/-- what follows a retained window is a walk when all later windows are retained. -/
+theorem Windowed.walk2 {k : Nat} {s : Mask} (hs : s.size = 4 ^ k) (hk : 1 ≤ k) :
+    ∀ (C B : List Char), B.length = k → s.getD (kmerIdx B) false = true →
+      Windowed k s (B.tail ++ C) → isWalk (inducedAccessor k s) ((kmerIdx B : Nat) : Int) C = true
+  | [], _, _, _, _ => rfl
+  | c :: C, B, hB, hret, h => by
+    match B, hB with
+    | [], hB => simp at hB; omega
+    | b :: B', hB =>
+      simp only [List.tail_cons] at h
+      have hB' : (B' ++ [c]).length = k := by simp at hB ⊢; omega
+      have hret' := h.2 [] (B' ++ [c]) C (by simp) hB'
+      rw [isWalk_induced_cons k s hs _ hret, stepV_kmerIdx k b B' c hB]
+      refine ⟨h.1 c (by simp), hret', ?_⟩
+      apply Windowed.walk2 hs hk C (B' ++ [c]) hB' hret'
+      match B' with
+      | [] => simp; exact Windowed.suffix (X := [c]) (by simpa using h)
+      | b' :: B'' =>
+        simp only [List.cons_append, List.tail_cons]
+        apply Windowed.suffix (X := [b'])
+        simpa using h
+
+theorem step_detect (a : Acc) (k : Nat) (dna : List Char) (st : Scan) (pre G0 S : List Char) (y : Char)
+    (r : Nat) (cur : List Char) (tl : List (List Char))
+    (hdna : dna = pre ++ G0 ++ y :: S) (hloc : st.loc = pre.length) (hsp : st.splits = cur :: tl)
+    (hq : st.queue.length = dna.length) (hk : 1 ≤ k) (hr : r < k) (hG0 : k ≤ G0.length)
+    (hS : r + k ≤ S.length) (hacgt : (nucIdx (S[r + k - 1]'(by omega))).isSome = true)
+    (h1 : isWalk a st.v (G0 ++ (y :: S).take r) = true)
+    (h2 : a.next (walkEnd a st.v (G0 ++ (y :: S).take r)) ((y :: S)[r]'(by simp; omega)) = none) :
+    ∃ st2 marker,
+      (∀ fuel, scan a k dna (fuel + (1 + (G0.length + r))) st = scan a k dna fuel st2) ∧
+      st2.detected = st.detected + 1 ∧ st2.loc = (pre ++ G0 ++ y :: S.take (r + k)).length ∧
+      st2.v = ((kmerIdx ((S.drop r).take k) : Nat) : Int) ∧
+      st2.splits = [S[r + k - 1]] :: (cur ++ G0.take (G0.length + r + 1 - k)) :: tl ∧
+      st2.chunks = (G0.drop (G0.length + r + 1 - k) ++ y :: S.take (r + k - 1)) :: st.chunks ∧
+      st2.markers = marker :: st.markers ∧ marker.reverse[r]? = some (walkEnd a st.v G0) ∧
+      st2.queue.length = dna.length := by
+  have hrT : r < (y :: S).length := by simp; omega
+  let X := G0 ++ (y :: S).take r
+  have hXlen : X.length = G0.length + r := by simp [X]; omega
+  have hdl : dna.length = pre.length + G0.length + 1 + S.length := by rw [hdna]; simp; omega
+  have hd : dna.drop st.loc = X ++ (y :: S)[r] :: (y :: S).drop (r + 1) := by
+    rw [List.getElem_cons_drop hrT, hloc, hdna, List.append_assoc, List.drop_left]
+    simp only [X, List.append_assoc, List.take_append_drop]
+  have hqr : (st.run a X).queue.length = dna.length := by
+    rw [(Scan.run_fields a X st).2.2.2.2.2.2, hq]
+  obtain ⟨f1, f2, f3, f4, f5, f6, f7, f8⟩ := detect_fields a k dna X st cur tl hsp
+    (pre.length + G0.length + r) (by rw [hXlen, hloc]; omega) (by omega)
+    (by rw [List.length_append, hXlen]; omega)
+  have hdna' : dna = (pre ++ G0) ++ y :: S := by rw [hdna]
+  have hPlen : (pre ++ G0).length = pre.length + G0.length := by simp
+  have hres : (dna.drop (pre.length + G0.length + r + 1)).take k = (S.drop r).take k := by
+    have := slice_resume (pre ++ G0) S y k r
+    rw [hPlen] at this
+    rwa [show pre.length + G0.length + r + k + 1 - (pre.length + G0.length + r + 1) = k by omega,
+      ← hdna'] at this
+  rw [hres] at f3 f4
+  refine ⟨(st.run a X).detect k dna, _, ?_, f1, ?_, f3, ?_, ?_, f6, ?_, by rw [f7, hqr]⟩
+  · intro fuel
+    have := scan_detect a k dna fuel X _ _ st h1 hd h2
+    rw [hXlen] at this
+    rw [← this]; congr 1; omega
+  · rw [f2]; simp; omega
+  · rw [f4, window_last S r k hk hS, nucChar_kmerIdx_snoc _ _ hacgt]
+    congr 2
+    rw [List.length_append, hXlen]
+    show (cur ++ (G0 ++ (y :: S).take r)).take _ = _
+    rw [← List.append_assoc, List.take_append_of_le_length (by simp; omega),
+      List.take_append, List.take_of_length_le (by omega)]
+    congr 2; omega
+  · rw [f5]
+    congr 1
+    have := slice_chunk (pre ++ G0) S y k r hr (by rw [hPlen]; omega)
+    rw [hPlen, ← hdna'] at this
+    rw [this]
+    congr 1
+    rw [List.drop_append, List.drop_of_length_le (by omega), List.nil_append]
+    congr 1; omega
+  · have hqv := run_queue a X st (by rw [hq, hdl, hXlen, hloc]; omega) (G0.length - 1)
+      (by rw [hXlen]; omega)
+    have hl : (((st.run a X).queue.drop (pre.length + G0.length + r - k)).take k).length = k := by
+      simp [hqr, hdl]; omega
+    rw [List.getElem?_reverse (by rw [hl]; exact hr), hl, List.getElem?_take,
+      if_pos (by omega), List.getElem?_drop]
+    rw [hloc] at hqv
+    rw [show pre.length + G0.length + r - k + (k - 1 - r) = pre.length + (G0.length - 1) by omega, hqv,
+      show G0.length - 1 + 1 = G0.length by omega]
+    simp [X]
+
+/-! ## several edits: blocks -/
+
+/-- one edit seen from the strands: the original has `mid` where the corrupted strand has the
+symbol `y`; both continue with the clean stretch `G`. -/
+structure Blk where
+  mid : List Char
+  y : Char
+  G : List Char
+
+/-- the original strand after the leading clean stretch. -/
+def tailO : List Blk → List Char
+  | [] => []
+  | b :: bs => b.mid ++ b.G ++ tailO bs
+
+/-- the corrupted strand after the leading clean stretch. -/
+def tailC : List Blk → List Char
+  | [] => []
+  | b :: bs => b.y :: (b.G ++ tailC bs)
+
+/-- spacing of the blocks behind a leading clean stretch of length `g`: at least `k` clean symbols
+before every edit, `2k - 1` after it, and still `k` before the next edit when the first `2k - 1`
+symbols after an edit are discounted. -/
+def Chain (k : Nat) : Nat → List Blk → Prop
+  | _, [] => True
+  | g, b :: bs => k ≤ g ∧ MidKind true b.y b.mid ∧ (nucIdx b.y).isSome = true ∧
+      2 * k - 1 ≤ b.G.length ∧ Chain k (b.G.length - (2 * k - 1)) bs
+
+theorem Chain.mono {k g g' : Nat} {bs : List Blk} (h : Chain k g bs) (hg : g ≤ g') : Chain k g' bs := by
+  cases bs with
+  | nil => trivial
+  | cons b bs => exact ⟨Nat.le_trans h.1 hg, h.2⟩
+
+/-- one detection of the final scan state: the split that follows it, its chunk and look-back
+window, and the fragment that restores the original. -/
+structure Item where
+  A : List Char
+  chunk : List Char
+  marker : List Int
+  F : List Char
+
+/-- the fragment `F` is proposed by `pathMatching` at some look-back position of the detection
+`(chunk, marker)`. -/
+def Coll (a : Acc) (k : Nat) (dna chunk : List Char) (marker : List Int) (F : List Char) : Prop :=
+  IsAcgt chunk ∧ k ≤ chunk.length ∧ chunk.length + 1 < dna.length ∧
+    ∃ prev idx pm info, marker.reverse[idx]? = some prev ∧
+      pathMatching a chunk prev (k - idx - 1) true = .ok pm ∧ info ∈ pm.1 ∧ info.fragment = F
+
+/-- the final scan state restores `W` behind the current split `cur`. -/
+def Good (a : Acc) (k : Nat) (dna cur : List Char) (tl ch : List (List Char)) (mk : List (List Int))
+    (st' : Scan) (W : List Char) (n : Nat) : Prop :=
+  ∃ (A0 : List Char) (items : List Item),
+    st'.splits = (items.map (·.A)).reverse ++ (cur ++ A0) :: tl ∧
+    st'.chunks = (items.map (·.chunk)).reverse ++ ch ∧
+    st'.markers = (items.map (·.marker)).reverse ++ mk ∧
+    W = A0 ++ (items.map fun it => it.F ++ it.A).flatten ∧
+    (∀ it ∈ items, Coll a k dna it.chunk it.marker it.F) ∧ items.length = n
+
+theorem take_cons_pred {α} (y : α) (S : List α) (k : Nat) (hk : 1 ≤ k) :
+    (y :: S).take k = y :: S.take (k - 1) := by
+  obtain ⟨j, rfl⟩ : ∃ j, k = j + 1 := ⟨k - 1, by omega⟩
+  simp
+
+/-- the scan from a synchronised state through the remaining edits: at most one detection per
+edit, and when every edit is detected the final state restores the original. -/
+theorem multi_scan (k : Nat) (s : Mask) (hs : s.size = 4 ^ k) (hk : 1 ≤ k) (dna : List Char)
+    (fuel : Nat) : ∀ (bs : List Blk) (G0 pre : List Char) (u : Nat) (st st' : Scan) (cur : List Char)
+      (tl : List (List Char)),
+    dna = pre ++ G0 ++ tailC bs → st.loc = pre.length → st.v = (u : Int) →
+    s.getD u false = true → isWalk (inducedAccessor k s) (u : Int) (G0 ++ tailO bs) = true →
+    st.splits = cur :: tl → st.queue.length = dna.length → Chain k G0.length bs →
+    scan (inducedAccessor k s) k dna fuel st = some st' →
+    st'.detected ≤ st.detected + bs.length ∧
+      (st'.detected = st.detected + bs.length →
+        Good (inducedAccessor k s) k dna cur tl st.chunks st.markers st' (G0 ++ tailO bs) bs.length)
+  | [], G0, pre, u, st, st', cur, tl, hdna, hloc, hv, hu, hw, hsp, hq, hch, hscan => by
+    simp only [tailC, tailO, List.append_nil] at hdna hw ⊢
+    have h := scan_mono _ k dna fuel st st' hscan G0.length
+    rw [scan_walk _ k dna fuel G0 st (by rw [hv]; exact hw)
+      ⟨[], by rw [hloc, hdna]; simp⟩] at h
+    obtain ⟨g1, g2, g3, g4, g5, g6, g7⟩ := Scan.run_fields (inducedAccessor k s) G0 st
+    have g8 := Scan.run_splits (inducedAccessor k s) G0 st (by rw [hsp]; simp)
+    rw [scan_done _ k dna fuel _ (by rw [g1, hloc, hdna]; simp)] at h
+    cases h
+    refine ⟨by rw [g3]; simp, fun _ => ⟨G0, [], ?_, ?_, ?_, ?_, ?_, rfl⟩⟩
+    · simp [g8, hsp]
+    · simp [g4]
+    · simp [g5]
+    · simp
+    · intro it hit; cases hit
+  | b :: bs, G0, pre, u, st, st', cur, tl, hdna, hloc, hv, hu, hw, hsp, hq, hch, hscan => by
+    obtain ⟨hkG, hkind, hy, hGlen, hch'⟩ := hch
+    simp only [tailC, tailO] at hdna hw ⊢
+    -- the original strand and its pieces
+    have hwin : Windowed k s (G0 ++ (b.mid ++ b.G ++ tailO bs)) := Windowed.of_walk hs hu hw
+    have hwinS : Windowed k s (b.G ++ tailO bs) := by
+      have : G0 ++ (b.mid ++ b.G ++ tailO bs) = (G0 ++ b.mid) ++ (b.G ++ tailO bs) := by simp
+      rw [this] at hwin; exact hwin.suffix
+    have hacgtG0 : IsAcgt G0 := hwin.prefix.1
+    have hacgtG : IsAcgt b.G := hwinS.prefix.1
+    rw [isWalk_append, Bool.and_eq_true] at hw
+    obtain ⟨hwG0, hwmid⟩ := hw
+    rw [List.append_assoc] at hwmid
+    have hdl : dna.length = pre.length + G0.length + 1 + b.G.length + (tailC bs).length := by
+      rw [hdna]; simp; omega
+    by_cases hT : isWalk (inducedAccessor k s) (walkEnd (inducedAccessor k s) (u : Int) G0)
+        ((b.y :: (b.G ++ tailC bs)).take k) = true
+    · -- the edit is not detected: the scan re-synchronises `k` symbols later
+      have eT : (b.y :: (b.G ++ tailC bs)).take k = b.y :: b.G.take (k - 1) := by
+        rw [take_cons_pred _ _ _ hk, List.take_append_of_le_length (by omega)]
+      rw [eT] at hT
+      have hX : isWalk (inducedAccessor k s) (u : Int) (G0 ++ b.y :: b.G.take (k - 1)) = true := by
+        rw [isWalk_append, hwG0, hT]; rfl
+      have hBlen : (b.y :: b.G.take (k - 1)).length = k := by simp; omega
+      obtain ⟨e1, hret1⟩ := walk_induced k s hs _ u hu hX
+      rw [vAfter_suffix k u G0 _ hBlen] at e1 hret1
+      have h := scan_mono _ k dna fuel st st' hscan (G0 ++ b.y :: b.G.take (k - 1)).length
+      rw [scan_walk _ k dna fuel _ st (by rw [hv]; exact hX)
+        ⟨b.G.drop (k - 1) ++ tailC bs, by
+          rw [hloc, hdna, List.append_assoc, List.drop_left]
+          simp only [List.append_assoc, List.cons_append]
+          rw [← List.append_assoc (b.G.take (k - 1)), List.take_append_drop]⟩] at h
+      obtain ⟨g1, g2, g3, g4, g5, g6, g7⟩ := Scan.run_fields (inducedAccessor k s)
+        (G0 ++ b.y :: b.G.take (k - 1)) st
+      have g8 := Scan.run_splits (inducedAccessor k s) (G0 ++ b.y :: b.G.take (k - 1)) st
+        (by rw [hsp]; simp)
+      have hw1 : isWalk (inducedAccessor k s) ((kmerIdx (b.y :: b.G.take (k - 1)) : Nat) : Int)
+          (b.G.drop (k - 1) ++ tailO bs) = true := by
+        apply Windowed.walk2 hs hk _ _ hBlen hret1
+        simp only [List.tail_cons]
+        rw [← List.append_assoc, List.take_append_drop]; exact hwinS
+      have ih := multi_scan k s hs hk dna fuel bs (b.G.drop (k - 1))
+        (pre ++ G0 ++ b.y :: b.G.take (k - 1)) _ _ st' _ _
+        (by
+          rw [hdna]; simp only [List.append_assoc, List.cons_append]
+          rw [← List.append_assoc (b.G.take (k - 1)), List.take_append_drop])
+        (by rw [g1, hloc]; simp <;> omega) (by rw [g2, hv, e1]) hret1 hw1 g8 (by rw [g7, hq])
+        (hch'.mono (by simp; omega)) h
+      rw [g3] at ih
+      exact ⟨by simp; omega, fun h' => by simp at h'; omega⟩
+    · -- the edit is detected at `r < k` symbols past the edited position
+      have hT' : isWalk (inducedAccessor k s) (walkEnd (inducedAccessor k s) (u : Int) G0)
+          ((b.y :: (b.G ++ tailC bs)).take k) = false := by simpa using hT
+      obtain ⟨r, hr, hb1, hb2⟩ := isWalk_false_split _ _ _ hT'
+      have hrk : r < k := by simp at hr; omega
+      rw [List.take_take, Nat.min_eq_left (by omega)] at hb1 hb2
+      rw [List.getElem_take] at hb2
+      have hX : isWalk (inducedAccessor k s) st.v (G0 ++ (b.y :: (b.G ++ tailC bs)).take r) = true := by
+        rw [hv, isWalk_append, hwG0, hb1]; rfl
+      rw [← walkEnd_append, ← hv] at hb2
+      have hSk : r + k ≤ (b.G ++ tailC bs).length := by simp; omega
+      have hget : (b.G ++ tailC bs)[r + k - 1]'(by omega) = b.G[r + k - 1]'(by omega) :=
+        List.getElem_append_left (by omega)
+      obtain ⟨st2, marker, hsc, d1, d2, d3, d4, d5, d6, d7, d8⟩ :=
+        step_detect (inducedAccessor k s) k dna st pre G0 (b.G ++ tailC bs) b.y r cur tl hdna hloc hsp hq
+          hk hrk hkG hSk (by rw [hget]; exact hacgtG _ (List.getElem_mem _)) hX hb2
+      have e1 : (b.G ++ tailC bs).take (r + k) = b.G.take (r + k) :=
+        List.take_append_of_le_length (by omega)
+      have e2 : ((b.G ++ tailC bs).drop r).take k = (b.G.drop r).take k := by
+        rw [List.drop_append_of_le_length (by omega), List.take_append_of_le_length (by simp; omega)]
+      have e3 : (b.G ++ tailC bs).take (r + k - 1) = b.G.take (r + k - 1) :=
+        List.take_append_of_le_length (by omega)
+      rw [e1] at d2
+      rw [e2] at d3
+      rw [hget] at d4
+      rw [e3] at d5
+      have h := scan_mono _ k dna fuel st st' hscan (1 + (G0.length + r))
+      rw [hsc fuel] at h
+      -- the resume vertex and the walk behind it
+      have hBlen : ((b.G.drop r).take k).length = k := by simp; omega
+      have hsplitG : b.G ++ tailO bs =
+          b.G.take r ++ (b.G.drop r).take k ++ (b.G.drop (r + k) ++ tailO bs) := by
+        rw [← List.append_assoc, List.append_assoc (b.G.take r), ← List.drop_drop,
+          List.take_append_drop, List.take_append_drop]
+      have hret2 := hwinS.2 _ _ _ hsplitG hBlen
+      have hw2 := Windowed.walk hs hk _ _ _ _ hwinS hsplitG hBlen
+      have ih := multi_scan k s hs hk dna fuel bs (b.G.drop (r + k))
+        (pre ++ G0 ++ b.y :: b.G.take (r + k)) _ st2 st' _ _
+        (by
+          rw [hdna]; simp only [List.append_assoc, List.cons_append]
+          rw [← List.append_assoc (b.G.take (r + k)), List.take_append_drop])
+        d2 d3 hret2 hw2 d4 d8 (hch'.mono (by simp; omega)) h
+      rw [d1] at ih
+      refine ⟨by simp; omega, fun h' => ?_⟩
+      obtain ⟨A0', items', i1, i2, i3, i4, i5, i6⟩ := ih.2 (by simp at h'; omega)
+      -- the restoring record of this detection
+      have hmidS' : isWalk (inducedAccessor k s) (walkEnd (inducedAccessor k s) (u : Int) G0)
+          (b.mid ++ b.G.take (r + k - 1)) = true := by
+        apply isWalk_prefix _ _ (b.G.drop (r + k - 1) ++ tailO bs)
+        rw [List.append_assoc, ← List.append_assoc (b.G.take (r + k - 1)), List.take_append_drop]
+        exact hwmid
+      obtain ⟨pm, info, hpm, hinfo, hfrag⟩ := restore_record (inducedAccessor k s) true
+        (walkEnd (inducedAccessor k s) (u : Int) G0) (G0.drop (G0.length + r + 1 - k))
+        (b.G.take (r + k - 1)) b.y b.mid hkind hmidS'
+      have hPd : (G0.drop (G0.length + r + 1 - k)).length = k - r - 1 := by simp; omega
+      rw [hPd] at hpm
+      have hclen : (G0.drop (G0.length + r + 1 - k) ++ b.y :: b.G.take (r + k - 1)).length =
+          2 * k - 1 := by simp; omega
+      rw [hv] at d7
+      refine ⟨G0.take (G0.length + r + 1 - k),
+        ⟨b.G[r + k - 1]'(by omega) :: A0', G0.drop (G0.length + r + 1 - k) ++ b.y :: b.G.take (r + k - 1),
+          marker, G0.drop (G0.length + r + 1 - k) ++ b.mid ++ b.G.take (r + k - 1)⟩ :: items',
+        ?_, ?_, ?_, ?_, ?_, by simp [i6]⟩
+      · rw [i1]; simp
+      · rw [i2, d5]; simp
+      · rw [i3, d6]; simp
+      · have key : b.G.drop (r + k - 1) ++ tailO bs =
+            b.G[r + k - 1]'(by omega) :: (A0' ++ (items'.map fun it => it.F ++ it.A).flatten) := by
+          rw [List.drop_eq_getElem_cons (by omega), show r + k - 1 + 1 = r + k by omega,
+            List.cons_append, i4]
+        simp only [List.map_cons, List.flatten_cons, List.append_assoc, List.cons_append]
+        rw [← key, ← List.append_assoc (b.G.take _), List.take_append_drop,
+          ← List.append_assoc (G0.take _), List.take_append_drop]
+      · intro it hit
+        rcases List.mem_cons.mp hit with rfl | hit
+        · refine ⟨IsAcgt.append.mpr ⟨hacgtG0.drop _, IsAcgt.cons.mpr ⟨hy, hacgtG.take _⟩⟩,
+            by rw [hclen]; omega, by rw [hclen, hdl]; omega, _, r, pm, info, d7, hpm, hinfo, hfrag⟩
+        · exact i5 it hit
+
+/-! ## several edits: fragments, product and candidates -/
+
+theorem Coll.mem {a : Acc} {k : Nat} {dna chunk : List Char} {marker : List Int} {F : List Char}
+    (hk : 1 ≤ k) (h : Coll a k dna chunk marker F) {r : List (List Char) × Nat}
+    (hr : collectFragments a k dna chunk marker true = .ok r) : F ∈ r.1 := by
+  obtain ⟨h1, h2, h3, prev, idx, pm, info, hm, hpm, hinfo, rfl⟩ := h
+  obtain ⟨r', hr', hmem, -⟩ := collectFragments_mem a k dna chunk marker true hk h1 h2 h3 prev idx hm
+    pm info hpm hinfo
+  rw [hr] at hr'; cases hr'; exact hmem
+
+/-- the fragment fold over the detections described by `items`. -/
+theorem fragFold_items (a : Acc) (k : Nat) (dna : List Char) (hk : 1 ≤ k) :
+    ∀ (items : List Item) (acc fv : List (List (List Char)) × Nat),
+      (items.map fun it => (it.chunk, it.marker)).foldlM (fragStep a k dna true) acc = .ok fv →
+      (∀ it ∈ items, Coll a k dna it.chunk it.marker it.F) →
+      ∃ sets, fv.1 = acc.1 ++ sets ∧ sets.length = items.length ∧
+        items.map (·.F) ∈ product sets
+  | [], acc, fv, h, _ => by
+    simp only [List.map_nil, List.foldlM_nil, pure, Except.pure, Except.ok.injEq] at h
+    subst h
+    exact ⟨[], by simp, rfl, by simp [product]⟩
+  | it :: items, acc, fv, h, hc => by
+    rw [List.map_cons, List.foldlM_cons] at h
+    obtain ⟨acc1, h1, h⟩ := R.bind_eq_ok _ _ _ h
+    obtain ⟨r, hr, e⟩ := R.bind_ok _ _ _ h1
+    simp only [Except.ok.injEq] at e
+    subst e
+    have hF := (hc it List.mem_cons_self).mem hk hr
+    obtain ⟨sets, e1, e2, e3⟩ := fragFold_items a k dna hk items _ fv h
+      (fun it' h' => hc it' (List.mem_cons_of_mem _ h'))
+    refine ⟨r.1 :: sets, by rw [e1]; simp, by simp [e2], ?_⟩
+    simp only [List.map_cons, product, List.mem_flatMap, List.mem_map]
+    exact ⟨it.F, hF, _, e3, rfl⟩
+
+/-- recombining the splits and the restoring fragments. -/
+theorem candOf_items : ∀ (items : List Item) (s0 acc : List Char),
+    ((s0 :: items.map (·.A)).zip (items.map (·.F))).foldl
+        (fun s (p : List Char × List Char) => s ++ p.1 ++ p.2) acc ++
+      (s0 :: items.map (·.A)).getLastD [] =
+    acc ++ s0 ++ (items.map fun it => it.F ++ it.A).flatten
+  | [], s0, acc => by simp
+  | it :: items, s0, acc => by
+    simp only [List.map_cons, List.zip_cons_cons, List.foldl_cons, List.flatten_cons]
+    have := candOf_items items it.A (acc ++ s0 ++ it.F)
+    rw [List.getLastD_cons] at this ⊢
+    rw [List.getLastD_cons]
+    rw [this]; simp
+
+/-- inversion of `repairTail`: the fallback reports no detection, the product path returns every
+candidate that passes the check. -/
+theorem repairTail_cases {dna : List Char} {chk : Option (List Char)} {heap : Nat} {st : Scan}
+    {fv : List (List (List Char)) × Nat} {res : List (List Char) × RepairStats}
+    (h : repairTail dna chk heap st fv = .ok res) :
+    (res.2.detected = 0 ∧ (fragCount fv.1 = 0 ∨ fragCount fv.1 > heap)) ∨
+    (res.2.detected = st.detected ∧ ∀ frs ∈ product fv.1,
+      vtMatches (candOf st.splits.reverse frs) chk = .ok true → candOf st.splits.reverse frs ∈ res.1) := by
+  by_cases hc : fragCount fv.1 = 0 ∨ fragCount fv.1 > heap
+  · left
+    unfold repairTail at h
+    rw [if_pos hc] at h
+    obtain ⟨okc, -, h⟩ := R.bind_ok _ _ _ h
+    refine ⟨?_, hc⟩
+    cases okc <;> simp [pure, Except.pure] at h <;> subst h <;> rfl
+  · right
+    have h1 : 1 ≤ fragCount fv.1 := by omega
+    have h2 : fragCount fv.1 ≤ heap := by omega
+    refine ⟨?_, fun frs hfrs hv => (repairTail_mem dna chk heap st fv res h h1 h2 frs hfrs hv).2⟩
+    unfold repairTail at h
+    rw [if_neg hc] at h
+    obtain ⟨checked, -, h⟩ := R.bind_ok _ _ _ h
+    simp only [pure, Except.pure, Except.ok.injEq] at h
+    subst h; rfl
+
+end Dsw.RepairEdit
